@@ -37,6 +37,15 @@ type customErr struct {
 
 func (e customErr) Error() string { return "custom failure " + e.Tok }
 
+// wrapErr is a struct-typed error that itself wraps another error (Unwrap).
+type wrapErr struct {
+	Tok   string
+	Inner error
+}
+
+func (e wrapErr) Error() string { return "wrapping failure " + e.Tok + ": " + e.Inner.Error() }
+func (e wrapErr) Unwrap() error { return e.Inner }
+
 type regErr struct {
 	base     error // what errors.Is / errors.As must find
 	returned error // the very value the callback returned
@@ -109,6 +118,9 @@ func (r *registry) mkErr(flavor, tok string) error {
 		re = regErr{base: e, returned: fmt.Errorf("callback %s: %w", tok, e)}
 	case "custom":
 		e := customErr{Tok: tok, Code: 42}
+		re = regErr{base: e, returned: e}
+	case "wrapcustom":
+		e := wrapErr{Tok: tok, Inner: &simErr{Tok: tok + "-inner"}}
 		re = regErr{base: e, returned: e}
 	default:
 		panic("bad error flavour " + flavor)
@@ -228,16 +240,33 @@ func (r *registry) describeErr(err error) string {
 			return toks[i]
 		}
 	}
+	// the exact value the callback returned must be found by errors.Is, and a
+	// struct-typed error by errors.As with the same fields
 	for i, re := range errs {
-		if ce, ok := re.base.(customErr); ok {
+		switch b := re.base.(type) {
+		case customErr:
 			var got customErr
-			if errors.As(err, &got) && got == ce {
+			if errors.As(err, &got) && got == b {
 				return "~" + toks[i]
 			}
-			continue
+		case wrapErr:
+			var got wrapErr
+			if errors.As(err, &got) && got == b && errors.Is(err, re.returned) {
+				return "~" + toks[i]
+			}
+		default:
+			if errors.Is(err, re.returned) {
+				return "~" + toks[i]
+			}
 		}
-		if errors.Is(err, re.base) {
-			return "~" + toks[i]
+	}
+	// only an inner cause of what the callback returned survives
+	for i, re := range errs {
+		if _, isPtr := re.base.(*simErr); isPtr && errors.Is(err, re.base) {
+			return "inner-cause-only:" + toks[i]
+		}
+		if w, ok := re.base.(wrapErr); ok && errors.Is(err, w.Inner) {
+			return "inner-cause-only:" + toks[i]
 		}
 	}
 	switch {
@@ -257,6 +286,7 @@ type nodeState struct {
 	attempt int
 	itemAtt map[int]int
 	started int // exec_start events of the current visit (barrier gate)
+	depIn   int // first attempts of "dep"-gated items started in the current visit
 }
 
 type harness struct {
@@ -299,6 +329,15 @@ func (h *harness) perform(n *NodeSpec, o Outcome, barrierNeed int) {
 	case "barrier":
 		st := h.st[n.ID]
 		simrt.YieldCond("gate:barrier", func() bool { return st.started >= barrierNeed }, nil)
+	case "dep":
+		st := h.st[n.ID]
+		need := 0
+		for _, it := range n.visit(st.cur).Items {
+			if attemptOutcome(it.Exec, 1).Gate == "dep" {
+				need++
+			}
+		}
+		simrt.YieldCond("gate:dep", func() bool { return st.depIn >= need }, nil)
 	case "last":
 		simrt.YieldLast("gate:last")
 	}
@@ -320,6 +359,7 @@ func (h *harness) prep(n *NodeSpec, shared *flyt.SharedStore) (any, error) {
 		st.cur = v
 		st.attempt = 0
 		st.started = 0
+		st.depIn = 0
 		st.itemAtt = map[int]int{}
 		e.V = v
 		e.S1 = h.storeID(shared)
@@ -447,6 +487,11 @@ func (h *harness) exec(n *NodeSpec, arg any, anyStyle bool) (val any, errRes err
 			a = st.attempt
 		}
 		st.started++
+		if item >= 0 && a == 1 {
+			if vs := n.visit(v); item < len(vs.Items) && attemptOutcome(vs.Items[item].Exec, 1).Gate == "dep" {
+				st.depIn++
+			}
+		}
 		e.V = v
 		e.A = a
 	})
